@@ -20,26 +20,36 @@ theorem andThen_some' (s : Tcb) (r : ProcessSegmentResult) (f : Tcb → Tcb.B) :
     falls through -/
 theorem ackBlock_synSent (t v : Tcb) (seg : Hdr) (r1 : Option ProcessSegmentResult) (hs : t.state = .SynSent)
     (h : Tcb.ackBlock t seg = .ok (v, r1)) :
-    v.state = .SynSent ∧ (v.snd = t.snd ∨ (r1 = none ∧ seg.ctl.syn = true)) := by
+    v.state = .SynSent ∧ (v.snd = t.snd ∨ (r1 = none ∧ seg.ctl.syn = true ∧ seg.ctl.ack = true)) := by
   unfold Tcb.ackBlock at h
   split at h
   · cases h; exact ⟨hs, Or.inl rfl⟩
-  · rw [hs] at h
+  · rename_i hack
+    have ha : seg.ctl.ack = true := by simpa using hack
+    rw [hs] at h
     simp only [Tcb.enqueueThen_eq] at h
     repeat' (split at h)
     all_goals first
       | (cases h; exact ⟨hs, Or.inl rfl⟩)
       | (cases h; exact ⟨(Tcb.enqueueBuilt_frame _ _).2.2.2.2.1.trans hs, Or.inl (Tcb.enqueueBuilt_frame _ _).2.2.1⟩)
-      | (cases h; rename_i hsyn; exact ⟨rfl, Or.inr ⟨rfl, hsyn⟩⟩)
+      | (cases h; rename_i hsyn; exact ⟨rfl, Or.inr ⟨rfl, hsyn, ha⟩⟩)
 
+/-- block 3 in SYN-SENT: a RST without ACK is dropped (RFC 9293 3.10.7.3), one with ACK deletes
+    the TCB -/
 theorem rstBlock_synSent (v w : Tcb) (seg : Hdr) (r : Option ProcessSegmentResult) (hs : v.state = .SynSent)
-    (h : Tcb.rstBlock v seg = .ok (w, r)) : w = v ∧ (r = none ∨ ∃ r0, r = some r0 ∧ r0.shouldDeleteTcb = true) := by
+    (h : Tcb.rstBlock v seg = .ok (w, r)) :
+    w = v ∧ (r = none ∨ (r = some .DiscardSegment ∧ seg.ctl.ack = false) ∨
+      ∃ r0, r = some r0 ∧ r0.shouldDeleteTcb = true) := by
   unfold Tcb.rstBlock at h
   split at h
   · cases h; exact ⟨rfl, Or.inl rfl⟩
   · rw [hs] at h
     dsimp only at h
-    split at h <;> (cases h; exact ⟨rfl, Or.inr ⟨_, rfl, rfl⟩⟩)
+    split at h
+    · rename_i hna
+      cases h
+      exact ⟨rfl, Or.inr (Or.inl ⟨rfl, by simpa using hna⟩)⟩
+    · split at h <;> (cases h; exact ⟨rfl, Or.inr (Or.inr ⟨_, rfl, rfl⟩)⟩)
 
 theorem synBlock_synSent (v w : Tcb) (seg : Hdr) (r : Option ProcessSegmentResult) (hs : v.state = .SynSent)
     (h : Tcb.synBlock v seg = .ok (w, r)) :
@@ -88,7 +98,7 @@ theorem processSegment_synSent (t u : Tcb) (seg : Segment) (r : ProcessSegmentRe
         rw [hr] at h
         obtain ⟨hw, hr2⟩ := rstBlock_synSent v w seg.hdr r2 hv hr
         subst hw
-        rcases hr2 with e | ⟨r0, e, hdel⟩
+        rcases hr2 with e | ⟨e, hna⟩ | ⟨r0, e, hdel⟩
         · subst e
           rw [andThen_none'] at h
           cases hsy : Tcb.synBlock w seg.hdr with
@@ -100,7 +110,7 @@ theorem processSegment_synSent (t u : Tcb) (seg : Segment) (r : ProcessSegmentRe
             · subst hx hr3
               simp only [andThen_some', finish] at h
               cases h
-              rcases hcase with e | ⟨_, e⟩
+              rcases hcase with e | ⟨_, e, _⟩
               · exact e
               · rw [hsyn] at e; cases e
             · -- the state left SYN-SENT and never comes back
@@ -121,6 +131,13 @@ theorem processSegment_synSent (t u : Tcb) (seg : Segment) (r : ProcessSegmentRe
                     exact trk_andThen x _ _ (fun v r h => trk_textBlock x v _ _ _ r h)
                       (fun v w r h => trk_finBlock v w _ _ r h) _ _ heq
               exact hx (trk.synsent hu)
+        · -- a RST without ACK is dropped; block 2 did nothing either (no ACK bit)
+          subst e
+          simp only [andThen_some', finish] at h
+          cases h
+          rcases hcase with e | ⟨_, _, e⟩
+          · exact e
+          · rw [hna] at e; cases e
         · subst e
           simp only [andThen_some', finish] at h
           cases h
@@ -256,14 +273,31 @@ theorem freshKeep_advanceTime (t u : Tcb) (dt : Nat) (r : AdvanceTimeResult) (h 
       | (cases h; done)
       | (cases h; exact FreshKeep.of_eq rfl rfl rfl)
 
+theorem queueFin_state (s u : Tcb) (h : s.queueFin = .ok u) : u.state = s.state := by
+  rw [queueFin_eq] at h
+  split at h
+  · cases h; exact (Tcb.enqueueBuilt_frame _ _).2.2.2.2.1
+  · cases h; rfl
+
+theorem finIfPending_state (b : Bool) (s u : Tcb) (h : Tcb.finIfPending b s = .ok u) : u.state = s.state := by
+  unfold Tcb.finIfPending at h
+  split at h
+  · exact queueFin_state _ _ h
+  · cases h; rfl
+
 theorem freshKeep_close (t u : Tcb) (r : CloseResult) (h : t.close = .ok (u, r)) : FreshKeep t u := by
   intro hu
   unfold Tcb.close at h
-  simp only [Tcb.enqueue_eq] at h
-  repeat' (split at h)
+  split at h
   all_goals first
-    | (cases h; cases hu)
     | (cases h; exact ⟨hu, rfl, rfl⟩)
+    | (split at h
+       · cases h
+       · rename_i hq
+         cases h
+         have := queueFin_state _ _ hq
+         rw [hu] at this
+         cases this)
 
 theorem freshKeep_abort (t u : Tcb) (h : t.abort = .ok u) : FreshKeep t u := by
   intro hu
@@ -283,28 +317,6 @@ theorem segmentize_zero_wnd (m fuel : Nat) (t : Tcb) (q : Nat) (hw : t.snd.wnd =
     rw [segmentize_succ, hw]
     simp
 
-theorem segmentize_state (m fuel : Nat) (s u : Tcb) (q : Nat) (h : Tcb.segmentize m fuel s q = .ok u) :
-    u.state = s.state ∧ u.incoming = s.incoming := by
-  induction fuel generalizing s q with
-  | zero => cases h; exact ⟨rfl, rfl⟩
-  | succ n ih =>
-    rw [segmentize_succ] at h
-    split at h
-    · cases h; exact ⟨rfl, rfl⟩
-    · split at h
-      · cases h
-      · have := ih _ _ h
-        exact ⟨this.1, this.2⟩
-
-theorem segmentizeIfOpen_state (s u : Tcb) (h : Tcb.segmentizeIfOpen s = .ok u) :
-    u.state = s.state ∧ u.incoming = s.incoming := by
-  unfold Tcb.segmentizeIfOpen at h
-  repeat' (split at h)
-  all_goals first
-    | (cases h; done)
-    | (cases h; exact ⟨rfl, rfl⟩)
-    | exact segmentize_state _ _ _ _ _ h
-
 theorem segmentizeIfOpen_synSent (s : Tcb) (hs : s.state = .SynSent) (hw : s.snd.wnd = 0) (hm : ¬ s.mtu.toNat < SPACE_FOR_HEADERS) :
     Tcb.segmentizeIfOpen s = .ok s := by
   unfold Tcb.segmentizeIfOpen
@@ -321,13 +333,26 @@ theorem freshKeep_segments (t u : Tcb) (segs : List Segment) (hF : SynSentFresh 
   | error e => rw [hv] at h; cases h
   | ok v =>
     rw [hv] at h
+    dsimp only at h
+    cases hf : Tcb.finIfPending t.finPending v with
+    | error e => rw [hf] at h; cases h
+    | ok v2 =>
+    rw [hf] at h
     cases h
-    have hus : ∀ b, (markSent v b).state = v.state ∧ (markSent v b).snd = v.snd ∧
-        (markSent v b).incoming = v.incoming := by
+    have hus : ∀ b, (markSent v2 b).state = v2.state ∧ (markSent v2 b).snd = v2.snd ∧
+        (markSent v2 b).incoming = v2.incoming := by
       intro b; unfold markSent; dsimp only; cases b <;> exact ⟨rfl, rfl, rfl⟩
     rw [(hus _).1] at hu
     obtain ⟨hvs, hvi⟩ := segmentizeIfOpen_state _ _ hv
-    have hts : t.state = .SynSent := by rw [← hu, hvs]; rfl
+    have hts : t.state = .SynSent := by rw [← hu, finIfPending_state _ _ _ hf, hvs]; rfl
+    -- in SYN-SENT no FIN is pending
+    have hfp : t.finPending = false := by unfold Tcb.finPending; rw [hts]; rfl
+    rw [hfp] at hf
+    have hv2 : v2 = v := by
+      unfold Tcb.finIfPending at hf
+      rw [if_neg Bool.false_ne_true] at hf
+      cases hf; rfl
+    subst hv2
     obtain ⟨_, _, hw⟩ := hF hts
     refine ⟨hts, ?_, ?_⟩
     · rw [(hus _).2.1]
@@ -407,11 +432,12 @@ theorem tcbOk_listen (x : SideId) (seg : Segment) (iss : Seq) (mtu : U16) (t : T
 
 
 /-- the genuine exclusions for a segment arriving at side `x`: it is addressed to `x` and comes
-    from the peer's port; F-C12-2: no FIN while `SND.WL2` is unset; CLOSED: not the `SEQ = 0` reset -/
+    from the peer's port; CLOSED (neither a TCB nor a LISTEN binding): not the `SEQ = 0` reset.
+    Nothing is asked when the segment meets a TCB or a LISTEN binding. -/
 def ArrExcl (s : Sys) (x : SideId) (seg : Segment) : Prop :=
   seg.hdr.srcPort = x.peer.port ∧ seg.hdr.dstPort = x.port ∧
   match (s.side x).tcb with
-  | some t => ¬ Late t → seg.hdr.ctl.fin = false ∧ ∀ q ∈ t.incoming.segments, q.hdr.ctl.fin = false
+  | some _ => True
   | none =>
     match (s.side x).listen with
     | some _ => True
@@ -421,7 +447,6 @@ def Excl (s : Sys) (op : Op) : Prop :=
   match op with
   | .deliver x i => ∀ seg, s.nth i = some seg → ArrExcl s x seg
   | .inject x seg => ArrExcl s x seg
-  | .close x => ∀ t, (s.side x).tcb = some t → t.state ≠ .SynReceived
   | _ => True
 
 theorem arrOk_of_excl (s : Sys) (x : SideId) (seg : Segment) (hi : SysInv s) (he : ArrExcl s x seg) :
@@ -433,13 +458,12 @@ theorem arrOk_of_excl (s : Sys) (x : SideId) (seg : Segment) (hi : SysInv s) (he
   | some t =>
     rw [ht] at h3
     have ok := hi x t ht
-    exact ⟨ok.fresh, ok.idle, h3⟩
+    exact ⟨ok.fresh, ok.idle⟩
 
 theorem adm_of_excl (s : Sys) (op : Op) (hi : SysInv s) (he : Excl s op) : Adm s op := by
   cases op with
   | deliver x i => exact fun seg hn => arrOk_of_excl s x seg hi (he seg hn)
   | inject x seg => exact arrOk_of_excl s x seg hi he
-  | close x => exact he
   | emit x =>
     intro t ht
     have ok := hi x t ht
@@ -637,12 +661,10 @@ theorem runAdm_of_excl (s : Sys) (ops : List Op) (hi : SysInv s) (h : RunExcl s 
 
 /-! ## an executable check of `RunExcl` (for concrete runs) -/
 
-def lateB (t : Tcb) : Bool := t.state != .SynSent && t.state != .SynReceived
-
 def arrExclB (s : Sys) (x : SideId) (seg : Segment) : Bool :=
   seg.hdr.srcPort == x.peer.port && seg.hdr.dstPort == x.port &&
   match (s.side x).tcb with
-  | some t => lateB t || (!seg.hdr.ctl.fin && t.incoming.segments.all fun q => !q.hdr.ctl.fin)
+  | some _ => true
   | none =>
     match (s.side x).listen with
     | some _ => true
@@ -655,10 +677,6 @@ def exclB (s : Sys) (op : Op) : Bool :=
     | some seg => arrExclB s x seg
     | none => true
   | .inject x seg => arrExclB s x seg
-  | .close x =>
-    match (s.side x).tcb with
-    | some t => t.state != .SynReceived
-    | none => true
   | _ => true
 
 def runExclB : Sys → List Op → Bool
@@ -669,25 +687,13 @@ def runExclB : Sys → List Op → Bool
     | .ok (s', _) => runExclB s' ops
     | .error _ => true
 
-theorem late_of_B (t : Tcb) (h : lateB t = true) : Late t := by
-  unfold lateB at h
-  simp only [Bool.and_eq_true, bne_iff_ne] at h
-  exact h
-
 theorem arrExcl_of_B (s : Sys) (x : SideId) (seg : Segment) (h : arrExclB s x seg = true) : ArrExcl s x seg := by
   unfold arrExclB at h
   simp only [Bool.and_eq_true, beq_iff_eq] at h
   obtain ⟨⟨h1, h2⟩, h3⟩ := h
   refine ⟨h1, h2, ?_⟩
   cases ht : (s.side x).tcb with
-  | some t =>
-    rw [ht] at h3
-    dsimp only at h3 ⊢
-    intro hl
-    simp only [Bool.or_eq_true, Bool.and_eq_true, Bool.not_eq_true', List.all_eq_true] at h3
-    rcases h3 with e | ⟨e1, e2⟩
-    · exact absurd (late_of_B t e) hl
-    · exact ⟨e1, fun q hq => by simpa using e2 q hq⟩
+  | some t => trivial
   | none =>
     rw [ht] at h3
     dsimp only at h3 ⊢
@@ -705,10 +711,6 @@ theorem excl_of_B (s : Sys) (op : Op) (h : exclB s op = true) : Excl s op := by
     simp only [exclB, hn] at h
     exact arrExcl_of_B s x seg h
   | inject x seg => exact arrExcl_of_B s x seg h
-  | close x =>
-    intro t ht
-    simp only [exclB, ht, bne_iff_ne] at h
-    exact h
   | _ => trivial
 
 theorem runExcl_of_B (s : Sys) (ops : List Op) (h : runExclB s ops = true) : RunExcl s ops := by
